@@ -222,6 +222,34 @@ func checkListing(p *Prog, l *Ledger, keysT, valuesT string) {
 		l.Undecide(rule, "sortedKeys", "", "ordering function not found")
 		return
 	}
+	// the library spelling of the same thing: return slices.Sorted(maps.Keys(object))
+	if len(sk.Blocks) == 1 {
+		var iter, sorted *ssa.Call
+		other := false
+		for _, in := range sk.Blocks[0].Instrs {
+			switch x := in.(type) {
+			case *ssa.Call:
+				if isIter, ok, _ := mapIterSorted(x); isIter && ok && iter == nil && strings.HasPrefix(x.Call.StaticCallee().Name(), "Keys") && x.Call.Args[0] == ssa.Value(sk.Params[0]) {
+					iter = x
+				} else if iter != nil && sorted == nil && len(x.Call.Args) == 1 && x.Call.Args[0] == ssa.Value(iter) {
+					sorted = x
+				} else {
+					other = true
+				}
+			case *ssa.Return:
+				if sorted == nil || len(x.Results) != 1 || x.Results[0] != ssa.Value(sorted) {
+					other = true
+				}
+			case *ssa.DebugRef:
+			default:
+				other = true
+			}
+		}
+		if iter != nil && sorted != nil && !other {
+			l.Discharge(rule, "sortedKeys", p.Pos(sk.Pos()), "slices.Sorted(maps.Keys(object)): every key of the object once, sorted", true)
+			return
+		}
+	}
 	var problems []string
 	nRange := 0
 	instrsOf(sk, func(in ssa.Instruction) {
